@@ -5,6 +5,9 @@ from .. import gen, report, wire
 from .common import CATS, viol, h, compact_case
 
 ID = 'C09'
+CLAIM = 'for nine transcript archetypes every (connection, message) site of an honest run receives faults: quick = seeded sample of single faults and pairs; thorough = systematic single-fault sweep (truncate+close/stall/reset at byte offsets, every length field x 6 values, every message-type byte x 12 values, dup/drop/garbage/inserted DEBUG/IGNORE/lines, refused/black-holed connection k) plus seeded pairs; judged on termination within a virtual-time bound, documented exit status, and report-iff-well-formed-handshake'
+TRUST = 'trusted base: simulated TCP (no reordering/duplication/short writes, by construction of TCP), virtual clock, the independent wire decoder that classifies the delivered handshake as well-formed / malformed / unclear; the slow-drip peer is not judged'
+TECHNIQUE = 'deterministic simulation with byte- and connection-level fault injection at enumerated sites, virtual-time termination bound'
 LEVEL = 'fault_enumeration'
 BUDGET = {'quick': 200, 'thorough': 3000}
 NRANDOM = {'quick': 1500, 'thorough': 20000}
